@@ -14,6 +14,8 @@ import GivaroModel.Lemmas.ModRingFEuclid
 import GivaroModel.Lemmas.ModRingRecInt
 import GivaroModel.Lemmas.ModRingLog16
 import Mathlib.Tactic.IntervalCases
+import GivaroModel.Lemmas.ModRingPrecomp
+import GivaroModel.Lemmas.ModRingGeneric
 namespace Givaro.Props.C03
 open Givaro.Model.ModRing Givaro.Spec.ModRing
 
@@ -1107,6 +1109,174 @@ example : t5.Valid := by
   · intro e h0 h1; have : e < 4 := h1; interval_cases e <;> decide
   · intro v h0 h1; have : v < 5 := h1; interval_cases v <;> decide
 example : t5.add 1 3 = 8 ∧ t5.val (t5.sub 0 3) = 3 ∧ t5.neg 8 = 8 := by decide
+
+/-! ## multiplication with a precomputed reciprocal (modular-mulprecomp.inl), all 16 integral configurations
+
+The domain is the one the file's asserts state (`bitsizep ≤ 4s−2`, resp. `4s−1`; compiled out by `-DNDEBUG`), which is
+smaller than `maxCardinality()`: beyond it the real code is wrong (examples below and the correspondence lines marked PRE) —
+a documented restriction of these entry points, not of the ring. -/
+
+/-- the bit-size loop: `2^(n-1) ≤ p < 2^n` -/
+theorem bitsize_spec (k : ICfg) (p : Int) (hp : 1 ≤ p) :
+    1 ≤ k.bitsize p ∧ (2 : Int) ^ (k.bitsize p - 1) ≤ p ∧ p < (2 : Int) ^ (k.bitsize p) := by
+  unfold ICfg.bitsize
+  rw [if_neg (by omega)]
+  have hn : p.toNat ≠ 0 := by omega
+  have h1 := Nat.log2_self_le hn
+  have h2 := @Nat.lt_log2_self p.toNat
+  have hc : ((p.toNat : Nat) : Int) = p := Int.toNat_of_nonneg (by omega)
+  refine ⟨by omega, ?_, ?_⟩
+  · simp only [Nat.add_sub_cancel]
+    rw [← hc]; exact_mod_cast h1
+  · rw [← hc]; exact_mod_cast h2
+
+/-- **mul_precomp_p** (Barrett with the reciprocal of `precomp_p`): exact on the domain the file asserts,
+    `bitsizep ≤ 4·sizeof(Compute_t) − 2` — the estimate is never above and at most ONE below the quotient,
+    which is the one conditional subtraction the code applies -/
+theorem mul_precomp_p_exact (k : ICfg) (hv : k.valid) (p a b : Int) (hp : 2 ≤ p)
+    (hdom : k.bitsize p + 2 ≤ k.hbits) (ha : isCanonU p a) (hb : isCanonU p b) :
+    k.mulPrecompP p (k.bitsize p) (k.precompP p (k.bitsize p)) a b = canonU p (a * b) := by
+  obtain ⟨h1, h2, h3⟩ := bitsize_spec k p (by omega)
+  have hn2 : 2 ≤ k.bitsize p := by
+    by_contra hc
+    have : k.bitsize p = 1 := by omega
+    rw [this] at h3; norm_num at h3; omega
+  exact mulPrecompP_model hv hn2 hdom h2 h3 ha hb
+
+/-- **mul_precomp_b** / **mul_precomp_b_without_reduction** (Shoup, reciprocal of `precomp_b(invb,b)`): on the asserted
+    domain `bitsizep ≤ 4·sizeof(Compute_t) − 1` the unreduced value is congruent and below `2p`, the reduced one canonical -/
+theorem mul_precomp_b_exact (k : ICfg) (hv : k.valid) (p a b : Int) (hp : 2 ≤ p)
+    (hdom : k.bitsize p + 1 ≤ k.hbits) (ha : isCanonU p a) (hb : isCanonU p b) :
+    k.mulPrecompB p (k.precompB p b) a b = canonU p (a * b)
+      ∧ (0 ≤ k.mulPrecompBNoRed p (k.precompB p b) a b ∧ k.mulPrecompBNoRed p (k.precompB p b) a b < 2 * p
+          ∧ p ∣ k.mulPrecompBNoRed p (k.precompB p b) a b - a * b) := by
+  obtain ⟨h1, h2, h3⟩ := bitsize_spec k p (by omega)
+  have hpH : 2 * p ≤ (2 : Int) ^ k.hbits := by
+    have : (2 : Int) ^ (k.bitsize p + 1) ≤ (2 : Int) ^ k.hbits := pow_le_pow_right₀ (by norm_num) hdom
+    rw [pow_succ] at this; omega
+  exact mulPrecompB_model hv hp hpH ha hb
+example : (ICfg.mk 64 false 64).bitsize 1073741823 + 2 ≤ (ICfg.mk 64 false 64).hbits := by decide
+example : (ICfg.mk 64 false 64).mulPrecompP 1073741823 30 ((ICfg.mk 64 false 64).precompP 1073741823 30) 1073741822 1073741822 = 1 := by decide
+/-- beyond the asserted domain the same code is wrong (a documented restriction, not the advertised maxCardinality) -/
+example : (ICfg.mk 64 false 64).mulPrecompP 4294967291 32 ((ICfg.mk 64 false 64).precompP 4294967291 32) 4294967290 4294967290 ≠ 1 := by decide
+
+/-! ## the generic `Modular<IntType,Compute_t>` (modular-inttype.inl): every type pair without a specialisation
+
+All arithmetic is carried out in `IntType`; `maxCardinality() = 2^⌊N/2⌋` (`N` value bits; fixes/C03_3.patch — before it the
+class advertised no maximum or the parent's, e.g. none for `Modular<int64_t,Integer>`, and `Modular<int16_t,int64_t>(4095)`
+gave `4094·4094 = 0`). -/
+
+section generic
+variable (k : GCfg) (hv : k.valid) (p a b c : Int) (hp : 2 ≤ p) (hm : p ≤ k.maxCard)
+include hv hp hm
+
+theorem generic_add_exact (ha : isCanonU p a) (hb : isCanonU p b) : k.add p a b = canonU p (a + b) :=
+  gadd_model (gok_of_valid k hv p hp hm) ha hb
+theorem generic_sub_exact (ha : isCanonU p a) (hb : isCanonU p b) :
+    k.sub p a b = canonU p (a - b) ∧ k.subin p a b = canonU p (a - b) :=
+  gsub_model (gok_of_valid k hv p hp hm) ha hb
+theorem generic_neg_exact (ha : isCanonU p a) : k.neg p a = canonU p (-a) :=
+  gneg_model (gok_of_valid k hv p hp hm) ha
+theorem generic_mul_exact (ha : isCanonU p a) (hb : isCanonU p b) : k.mul p a b = canonU p (a * b) :=
+  gmul_model (gok_of_valid k hv p hp hm) ha hb
+theorem generic_axpy_exact (ha : isCanonU p a) (hb : isCanonU p b) (hc : isCanonU p c) :
+    k.axpy p a b c = canonU p (a * b + c) ∧ k.axpyin p c a b = canonU p (a * b + c) :=
+  gaxpy_model (gok_of_valid k hv p hp hm) ha hb hc
+theorem generic_axmy_exact (ha : isCanonU p a) (hb : isCanonU p b) (hc : isCanonU p c) :
+    k.axmy p a b c = canonU p (a * b - c) ∧ k.axmyin p c a b = canonU p (a * b - c) :=
+  gaxmy_model (gok_of_valid k hv p hp hm) ha hb hc
+theorem generic_maxpy_exact (ha : isCanonU p a) (hb : isCanonU p b) (hc : isCanonU p c) :
+    k.maxpy p a b c = canonU p (c - a * b) ∧ k.maxpyin p c a b = canonU p (c - a * b) :=
+  gmaxpy_model (gok_of_valid k hv p hp hm) ha hb hc
+/-- reduce of any value of the element type -/
+theorem generic_reduce_exact (y : Int) (hy : k.sg = false → 0 ≤ y) : k.reduce p y = canonU p y :=
+  greduce_model (gok_of_valid k hv p hp hm) y hy
+
+/-- inv / invin: the two-variable Euclid with the deferred cofactor update never exceeds `p` and returns the inverse -/
+theorem generic_inv_exact (ha : isCanonU p a) (hu : Int.gcd a p = 1) :
+    isCanonU p (k.inv p a) ∧ (k.inv p a * a) % p = 1 % p :=
+  ginv_spec (gok_of_valid k hv p hp hm) ha hu
+
+/-- div / divin -/
+theorem generic_div_exact (ha : isCanonU p a) (hb : isCanonU p b) (hu : Int.gcd b p = 1) :
+    isQuot false p a b (k.div p a b) = true := by
+  obtain ⟨hi, hc⟩ := generic_inv_exact k hv p b hp hm hb hu
+  have ok := gok_of_valid k hv p hp hm
+  have e1 : k.div p a b = (k.inv p b * a) % p := by unfold GCfg.div; rw [gmul_model ok ha hi, Int.mul_comm]
+  rw [e1]
+  unfold isQuot
+  simp only [decide_eq_true_eq, isCanon, Bool.false_eq_true, if_false]
+  refine ⟨canonU_isCanon p _ (by omega), ?_⟩
+  apply Int.emod_eq_zero_of_dvd
+  have h1 : p ∣ k.inv p b * b - 1 := Int.dvd_of_emod_eq_zero (Int.emod_eq_emod_iff_emod_sub_eq_zero.1 hc)
+  have h2 := Int.emod_add_mul_ediv (k.inv p b * a) p
+  have e : (k.inv p b * a) % p * b - a = a * (k.inv p b * b - 1) - p * ((k.inv p b * a) / p * b) := by
+    have : (k.inv p b * a) % p = k.inv p b * a - p * ((k.inv p b * a) / p) := by linarith
+    rw [this]; ring
+  rw [e]
+  exact Int.dvd_sub (Dvd.dvd.mul_left h1 _) (Int.dvd_mul_right _ _)
+
+/-- isUnit (the parent's shared `extended_euclid<Element>`) ↔ gcd(a,p) = 1 -/
+theorem generic_isUnit_iff_coprime (ha : isCanonU p a) : k.isUnit p a = true ↔ Int.gcd a p = 1 := by
+  have ok := gok_of_valid k hv p hp hm
+  have eok := geok ok hv
+  have hE : k.asI.toE p = p := (ok.small (by omega : (0 : Int) ≤ p) (by omega)).1
+  rw [hE] at eok
+  obtain ⟨h1, _, _, _⟩ := euclid_spec eok ha hp
+  have hmo : k.asI.mOne p = p - 1 := by
+    unfold ICfg.mOne
+    have hU : k.asI.arU (p - 1) = p - 1 := by
+      obtain ⟨s, sg⟩ := k
+      simp only [GCfg.valid] at hv
+      rcases hv with h | h | h | h <;> subst h <;> cases sg <;>
+        simp only [GCfg.maxCard] at hm <;> norm_num at hm <;>
+        simp only [GCfg.asI, ICfg.arU, wrapUw, wrapSw] <;> norm_num <;> omega
+    rw [hU]; exact (ok.small (by omega) (by omega)).1
+  unfold GCfg.isUnit ICfg.isUnit
+  rw [hE]
+  simp only [h1, hmo, Bool.or_eq_true, beq_iff_eq]
+  constructor
+  · rintro (h | h)
+    · exact_mod_cast h
+    · have hd : ((Int.gcd a p : Nat) : Int) ∣ p := Int.gcd_dvd_right a p
+      rw [h] at hd
+      have : p - 1 ∣ 1 := by
+        have := Int.dvd_sub hd (Int.dvd_refl (p - 1))
+        simpa using this
+      have := Int.le_of_dvd (by decide) this
+      have : p = 2 := by omega
+      subst this
+      have : ((Int.gcd a 2 : Nat) : Int) = 1 := by rw [h]; rfl
+      exact_mod_cast this
+  · intro h; left; rw [h]; rfl
+
+theorem generic_exactOps : ExactOps (k.ops p) (canonU p) (isCanonU p) where
+  cn_ok x := canonU_isCanon p x (by omega)
+  add a b ha hb := by simp only [GCfg.ops]; rw [generic_add_exact k hv p a b hp hm ha hb]
+  sub a b ha hb := by simp only [GCfg.ops]; rw [(generic_sub_exact k hv p a b hp hm ha hb).1]
+  mul a b ha hb := by simp only [GCfg.ops]; rw [generic_mul_exact k hv p a b hp hm ha hb]
+  neg a ha := by simp only [GCfg.ops]; rw [generic_neg_exact k hv p a hp hm ha]
+  axpy a x y ha hx hy := by simp only [GCfg.ops]; rw [(generic_axpy_exact k hv p a x y hp hm ha hx hy).1]
+  axmy a x y ha hx hy := by simp only [GCfg.ops]; rw [(generic_axmy_exact k hv p a x y hp hm ha hx hy).1]
+  maxpy a x y ha hx hy := by simp only [GCfg.ops]; rw [(generic_maxpy_exact k hv p a x y hp hm ha hx hy).1]
+  axpyin r a x hr ha hx := by simp only [GCfg.ops]; rw [(generic_axpy_exact k hv p a x r hp hm ha hx hr).2]
+  axmyin r a x hr ha hx := by simp only [GCfg.ops]; rw [(generic_axmy_exact k hv p a x r hp hm ha hx hr).2]
+  maxpyin r a x hr ha hx := by simp only [GCfg.ops]; rw [(generic_maxpy_exact k hv p a x r hp hm ha hx hr).2]
+  addin r a hr ha := by simp only [GCfg.ops]; rw [generic_add_exact k hv p r a hp hm hr ha]
+  subin r a hr ha := by simp only [GCfg.ops]; rw [(generic_sub_exact k hv p r a hp hm hr ha).2]
+  mulin r a hr ha := by simp only [GCfg.ops]; rw [generic_mul_exact k hv p r a hp hm hr ha]
+  negin r hr := by simp only [GCfg.ops]; rw [generic_neg_exact k hv p r hp hm hr]
+
+/-- **history theorem** for the generic ring -/
+theorem generic_history_exact (prog : List Instr) (r : Regs) (hr : ∀ i, isCanonU p (r i)) :
+    (k.ops p).run prog r = some (runZ (canonU p) prog r) ∧ ∀ i, isCanonU p (runZ (canonU p) prog r i) :=
+  run_exact (generic_exactOps k hv p hp hm) prog r hr
+
+end generic
+example : (GCfg.mk 16 true).valid ∧ (128 : Int) ≤ (GCfg.mk 16 true).maxCard := by decide
+example : (GCfg.mk 16 true).axmy 128 127 127 0 = canonU 128 (127 * 127) ∧ (GCfg.mk 16 true).inv 127 5 = 51 := by decide
+/-- tightness: the element type no longer holds `p(p−1)+1` at 182 (what the unpatched class silently allowed) -/
+example : (GCfg.mk 16 true).axmy 182 181 181 0 ≠ canonU 182 (181 * 181) := by decide
 
 /-! ## histories: programs of any length over add/sub/neg/mul/axpy/axmy/maxpy and all in-place forms
 
